@@ -26,6 +26,9 @@ class RefRuntimeError(Exception):
         self.name = name
 
 
+SIZE_LIMIT = 1 << 18        # strings / arrays a generated program may build (doubling in nested loops is cut off here)
+
+
 class Indeterminate(Exception):
     """The run reached something the properties deliberately do not fix (x/0, overflow, % of a negative, UNSPEC model, fuel)."""
 
@@ -67,12 +70,11 @@ def binary_op(op, l, r):
     if op == '+':
         if is_number(l) and is_number(r):
             return _arith(lambda: l + r)
-        if isinstance(l, str) and isinstance(r, str):
-            return l + r
-        if isinstance(l, str):
-            return l + _str(r)
-        if isinstance(r, str):
-            return _str(l) + r
+        if isinstance(l, str) or isinstance(r, str):
+            out = (l if isinstance(l, str) else _str(l)) + (r if isinstance(r, str) else _str(r))
+            if len(out) > SIZE_LIMIT:
+                raise Indeterminate('value grows beyond the size the checks explore')
+            return out
         if isinstance(l, datetime.date) and is_number(r):
             return _dt_add(l, r)
         if is_number(l) and isinstance(r, datetime.date):
@@ -295,6 +297,8 @@ class Ref:
             raise Indeterminate(str(e)) from e
         if result is UNSPEC:
             raise Indeterminate('unspecified result of ' + name)
+        if isinstance(result, (str, list)) and len(result) > SIZE_LIMIT:
+            raise Indeterminate('value grows beyond the size the checks explore')
         return result
 
     def call_function(self, f, args):
